@@ -1,5 +1,5 @@
 """Property -> harnesses registry."""
-import h_doc, h_c13, h_lib, h_squash, h_pos, h_paths, h_titles, h_actions, h_events, h_server, h_router, h_render, h_urlkind
+import h_doc, h_c13, h_lib, h_squash, h_pos, h_paths, h_titles, h_actions, h_events, h_server, h_router, h_render, h_urlkind, h_search
 
 def doc(prog, tier):
     return h_doc.DocHarness(prog, tier)
@@ -65,6 +65,7 @@ POSB_SPEC = {'make': pos_blocks, 'time_limit': {'quick': 300, 'thorough': 900}}
 
 PATHS_SPEC = {'make': lambda prog, tier: h_paths.PathsHarness(prog, tier), 'time_limit': {'quick': 420, 'thorough': 1500}}
 
+SEARCH_SPEC = {'make': lambda prog, tier: h_search.SearchHarness(prog, tier), 'time_limit': {'quick': 240, 'thorough': 900}}
 TITLES_SPEC = {'make': lambda prog, tier: h_titles.TitlesHarness(prog, tier), 'time_limit': {'quick': 300, 'thorough': 600}}
 
 WRITER_NOTE = ('writer: the real blocks_to_markdown_sparce / GraphBlock::to_markdown / is_sparce_list / left_pad_and_prefix(_num) executed from MIR on block trees '
@@ -103,8 +104,8 @@ PROPS = {
         'decision kernel only: link kind x position x url form x (linking directory, target directory) x target has heading; output read from the projected GraphBlocks; '
         'the final "[text](url)" string and the refs_extension concatenation are outside',
         'relative-path join / relative / parent are native models validated against the real crate by the translator validation']},
-    'C18': {'specs': [PATHS_SPEC, LIB_SPEC], 'notes': COMMON + [
-        'claimed for the path enumeration and the rank ordering of Graph::search_paths; fuzzy scores (SkimMatcherV2), the 100-entry cut-off at real sizes and symbol Urls are outside',
+    'C18': {'specs': [PATHS_SPEC, SEARCH_SPEC, LIB_SPEC], 'notes': COMMON + [
+        'claimed for the path enumeration, the rank ordering of Graph::search_paths and the empty-query result of Database::global_search (order and 100-entry cut, list sizes on both sides of the cut-off, SkimMatcherV2 stubbed: its score is not read for an empty query); non-empty queries (fuzzy scores) and symbol Urls are outside',
         'oracle: independent forward enumeration over the input documents (root notes = notes nobody includes; steps heading -> sub-heading, heading -> top-level heading of a note included by a direct block reference; no note twice on a path)']},
     'C17': {'specs': SQUASH_SPECS, 'notes': COMMON + [
         'depth is a symbolic u8: 0..3 (quick) / 0..6 (thorough) on arbitrary reference graphs, all 256 values on chains and self-loops',
